@@ -31,7 +31,7 @@ CHECKS["C10"] = ("exploration",
 
 CHECKS["C13"] = ("exploration",
     "runtime monitoring: real build_libcnb_buildpacks_dependency_graph + get_dependencies on every labelled DAG materialised on disk, each returned order judged by a brute-force closure/topological checker",
-    "Every labelled DAG on 1..4 (quick) / 1..5 (thorough: 29 281 DAGs, 9.5 M orderings) nodes is written out as a workspace of composite / libcnb.rs / foreign buildpacks with libcnb: and noise dependencies in 16 layout variants (dependency order, directory names, composites vs. libcnb.rs component buildpacks that declare dependencies in package.toml), loaded through the real graph builder, and every non-empty ordered root selection is ordered by the real get_dependencies; the result must be exactly the reflexive-transitive closure, duplicate-free, dependencies first. Random DAGs on 6-12 nodes and workspaces with one dangling dependency (must be an error naming it) are added.",
+    "Every labelled DAG on 1..4 (quick) / 1..5 (thorough: 29 281 DAGs, 9.5 M orderings) nodes is written out as a workspace of composite / libcnb.rs / foreign buildpacks with libcnb: and noise dependencies in 64 layout variants (dependency order, directory names incl. siblings whose names are prefixes of one another, composites vs. libcnb.rs component buildpacks that declare dependencies in package.toml, buildpack directories that are symbolic links), loaded through the real graph builder, and every non-empty ordered root selection is ordered by the real get_dependencies; the result must be exactly the reflexive-transitive closure, duplicate-free, dependencies first. Random DAGs on 6-12 nodes and workspaces with one dangling dependency (must be an error naming it) are added.",
     "Trusted: the brute-force judge inside the executor (adjacency matrix drawn by the generator itself).")
 CHECKS["C14"] = ("exploration",
     "runtime monitoring: real package_composite_buildpack on generated composite buildpacks; the written package.toml is read by an independent TOML parser and compared with a reference normaliser (posixpath)",
